@@ -15,6 +15,8 @@ ASSUMPTIONS = [
     "ahash 0.7.6 patched not to enable stdsimd/runtime-rng; aho-corasick 0.7.20 with a hand-written Debug on one private enum (Kani ICE)",
     "num-bigint/num-rational are replaced by the bounded exact i128 model in /verif/kani/models (operands |v| < 2^100; "
     "division specified by the division lemma under Kani); text conversion of the model is not faithful and is outside every claim",
+    "std::collections::{HashMap, HashSet} used by xray's own files (Bind, scope tables, mapping/set buckets, PermissionSet) are "
+    "replaced by association-list models with the same API (/verif/kani/crate/mapmodel.rs): hashbrown does not finish in CBMC",
     "stub: std::collections::hash_map::RandomState::new -> fixed keys (getrandom is not modelled); HashMap behaviour is key-independent",
     "stub: RootCompilationScope::identifier -> injective table over the names a harness registers (the real interner compiles a regex on first use)",
     core.KANI_TOOLCHAIN_NOTE,
@@ -24,7 +26,7 @@ ASSUMPTIONS = [
 def module_files():
     out = {}
     for fn in sorted(os.listdir(HARNESS_DIR)):
-        if fn.endswith(".rs") and fn != "common.rs":
+        if fn.endswith(".rs") and fn not in ("common.rs", "mapmodel.rs"):
             out[fn] = fn[:-3].replace("__", "/") + ".rs"
     return out
 
@@ -53,8 +55,25 @@ def prepare(chk, rustflags="", only_modules=None):
     lib = os.path.join(crate, "src", "lib.rs")
     common = open(os.path.join(HARNESS_DIR, "common.rs")).read()
     open(os.path.join(crate, "src", "verif_common.rs"), "w").write(common)
+    libtxt = open(lib).read()
+    open(lib, "w").write("#![cfg_attr(kani, feature(allocator_api))]\n" + libtxt + "\n#[cfg(kani)]\n#[macro_use]\npub(crate) mod verif_common;\n")
+    # --- std HashMap/HashSet -> association-list model (import lines of xray's own files are redirected)
+    shutil.copy2(os.path.join(HARNESS_DIR, "mapmodel.rs"), os.path.join(crate, "src", "verif_mapmodel.rs"))
     with open(lib, "a") as f:
-        f.write("\n#[cfg(kani)]\n#[macro_use]\npub(crate) mod verif_common;\n")
+        f.write("\n#[cfg(kani)]\npub(crate) mod verif_mapmodel;\n")
+    redirected = 0
+    for root_, _, files in os.walk(os.path.join(crate, "src")):
+        for fn_ in files:
+            if not fn_.endswith(".rs") or fn_.startswith("verif_"):
+                continue
+            pth = os.path.join(root_, fn_)
+            txt = open(pth).read()
+            new = re.sub(r"(?m)^use std::collections::(HashMap|HashSet|\{HashMap, HashSet\});", r"use crate::verif_mapmodel::\1;", txt)
+            if new != txt:
+                redirected += 1
+                open(pth, "w").write(new)
+    if redirected < 5:
+        raise core.Inconclusive("HashMap redirect: only %d import lines found" % redirected)
     for fn, rel in module_files().items():
         if only_modules and fn not in only_modules:
             continue
@@ -64,7 +83,7 @@ def prepare(chk, rustflags="", only_modules=None):
         hashes["src/" + rel] = core.sha(os.path.join(core.REPO, "src", rel))
         body = open(os.path.join(HARNESS_DIR, fn)).read()
         with open(target, "a") as f:
-            f.write("\n#[cfg(kani)]\n#[allow(unused_imports, dead_code, unused_variables, unused_mut)]\nmod verif_kani {\n    use super::*;\n    use crate::verif_common::*;\n    use crate::trace;\n"
+            f.write("\n#[cfg(kani)]\n#[allow(unused_imports, dead_code, unused_variables, unused_mut)]\nmod verif_kani {\n    use super::*;\n    use crate::verif_common::*;\n    use crate::trace;\n    use crate::native_harness;\n"
                     + body + "\n// VERIF-PLAYBACK-INSERT\n}\n")
     kc = core.KaniCrate(crate, os.path.join(core.CACHE, "target-crate"), "K-crate (Kani/CBMC)", rustflags)
     kc.hashes = hashes
@@ -73,7 +92,10 @@ def prepare(chk, rustflags="", only_modules=None):
 
 def harnesses_in(fn, prefix):
     src = open(os.path.join(HARNESS_DIR, fn)).read()
-    return sorted(set(re.findall(r"#\[kani::proof\](?:\s*#\[[^\]]*\])*\s*fn (%s\w*)" % prefix, src)))
+    names = re.findall(r"#\[kani::proof\](?:\s*#\[[^\]]*\])*\s*fn (%s\w*)" % prefix, src)
+    names += re.findall(r"_harness!\(\s*(%s\w*)," % prefix, src)
+    names += re.findall(r"native_harness! \{(?:\s*#\[[^\]]*\])*\s*fn (%s\w*)" % prefix, src)
+    return sorted(set(names))
 
 
 def module_path(fn):
@@ -83,6 +105,15 @@ def module_path(fn):
 
 
 THOROUGH_ONLY = re.compile(r"_t$|_thorough$")
+
+# recursion bounds (DESIGN 2.3): the recursive drop glue / clone of the expression, value and type trees is entered at most
+# once per drop site; harness data never nests these types, and the unwinding assertions check that
+DEFAULT_UNWIND_RULES = [
+    (r"^std::ptr::drop_glue::<.*(xexpr::XExpr|xtype::XType|xtype::XCompoundSpec|xtype::XFuncSpec|xvalue::XValue|Declaration|StaticUserFunction|XStaticFunction)", 1),
+    (r"^std::ptr::drop_in_place::<.*(xexpr::XExpr|xtype::XType|xtype::XCompoundSpec|xvalue::XValue)", 1),
+    (r"^<xexpr::XExpr<.*> as std::clone::Clone>::clone", 1),
+    (r"^std::ptr::drop_glue::<std::io::Error>|^std::ptr::drop_glue::<runtime_violation::RuntimeViolation>", 1),
+]
 
 
 def specs_for(chk, crate, selections, timeout, extra=None, cbmc_args=None):
@@ -98,6 +129,7 @@ def specs_for(chk, crate, selections, timeout, extra=None, cbmc_args=None):
                 continue
             rel = "src/" + module_files()[fn]
             specs.append(dict(name="%s::%s" % (module_path(fn), n), timeout=timeout, extra=extra, cbmc_args=cbmc_args,
+                              unwind_rules=DEFAULT_UNWIND_RULES,
                               info=dict(functions_encoded="%s (sha256 %s) + callees, whole crate compiled" % (rel, crate.hashes.get(rel)),
                                         timeout=timeout)))
     return specs
